@@ -16,6 +16,12 @@ UNITS = ['shell_association', 'sample_shell', 'update_shell_info', 'add_bound',
          'add_samples', 'setter', 'run[verbose=False,file=False]',
          'run[verbose=False,file=True]', 'run[verbose=True,file=False]',
          'run[verbose=True,file=True]']
+# the concrete bound classes implement the abstract Bound API the Sampler
+# proofs are written against (units shared with C07)
+SUPPORT_UNITS = ['UnitCube', 'Union', 'NeuralBound', 'NautilusBound',
+                 'Union.restructure', 'NautilusBound.compute',
+                 'NautilusBound.worker']
+UNITS = UNITS + ['support:' + u for u in SUPPORT_UNITS]
 Z3_TIMEOUT_MS = 60000
 
 
@@ -47,6 +53,13 @@ DEAD_BRANCHES = (
 
 
 def build(cx, fe, tier, info, only=None, aspect=None):
+    if only is not None and only.startswith('support:'):
+        from . import C07
+        keep = _EX.get('ex')
+        C07.build(cx, fe, tier, info, only=only.split(':', 1)[1])
+        if keep is not None:
+            _EX['ex'] = keep
+        return
     reg = new_registry(fe)
     M.install_bound_api(reg, cx)
     M.install_sampler_hooks(reg)
